@@ -929,7 +929,7 @@ PROPS = {
     "C17": dict(
         retry_on_failure=True,
         known_oracle_kinds=["unframed-request-body"],
-        suites=["c17"],
+        suites=["c17", "c17h3"],
         judge=judge_c17,
         level="proof",
         rule="9 directed and 2500 (thorough 20000) generated exchanges through the real into_forwarded source and sink driven by the real "
@@ -941,7 +941,11 @@ PROPS = {
              "interim responses, response head (status, end-of-stream flag, headers), body bytes delivered, where end of stream fell. "
              "Half as many mutated (malformed) origin streams are run for panics only. 16 (60) non-CONNECT requests go through real "
              "HTTP/1.1 and HTTP/2 sessions and the real direct forwarder to a loopback origin (bodies up to 40000 bytes, chunked or "
-             "Content-Length, with and without 100 Continue, 3 segmentations) and are compared with an independent de-chunker.",
+             "Content-Length, with and without 100 Continue, 3 segmentations) and are compared with an independent de-chunker."
+             " HTTP/3 (suite c17h3, wall clock): 24 (thorough 120) GET / POST requests through the real QUIC listener and direct forwarder to "
+             "a loopback origin: Content-Length, chunked and close-delimited responses of 0-40000 bytes after 0-2 interim heads, in 3 "
+             "segmentations, a client that takes everything or 300 bytes per read; checked: the request the origin saw (line, Host, end-to-"
+             "end headers, no Proxy-Authorization, body), status, X-A header, no hop-by-hop header, exact body, clean end of the stream",
         explanation="theorems segmentation_and_backpressure_independent, independent_after_origin_close, delivery_monotone, "
                     "chunked_body_delivered_exactly, content_length_body_delivered_exactly, close_delimited_body_delivered_exactly, "
                     "bodiless_response_ends_with_head, head_204_304_are_bodiless, interim_response_is_transparent, "
@@ -950,7 +954,8 @@ PROPS = {
         trusted=["httparse (response head, chunk size line) as re-written in the model for the generated grammar: CRLF line ends, "
                  "'Name: value' headers, hex sizes with optional ';ext'; compared with the real parser through the whole sink on every run",
                  "http crate URI parsing: path-and-query and authority are model inputs",
-                 "the real HTTP/1.1 / HTTP/2 codecs behind the responder are exercised by the live runs only; HTTP/3 is not driven",
+                 "the real HTTP/1.1 / HTTP/2 / HTTP/3 codecs behind the responder are exercised by the live runs only (samples: 16 + 24 "
+                 "exchanges per quick run through real sessions and a loopback origin; the HTTP/3 ones over the real QUIC listener, wall clock)",
                  "headers named by a Connection header are dropped only when they follow it (as the code does): the judge asserts the "
                  "fixed hop-by-hop set"],
         assumptions=["an origin that sends bytes beyond Content-Length or after the terminating chunk is outside the property; the "
